@@ -8,7 +8,7 @@ From Coq Require Import Lia.
 Local Open Scope net_scope.
 
 (* ---- the walk over the unfolded tree (same primitive operations, same order) ---- *)
-Definition pg_block_go (pg : sinfo -> nat -> xstmt -> nat -> nat -> NetModel.N (list nat)) (tn : name) (pre : list nat)
+Definition pg_block_go (il : bool) (pg : sinfo -> nat -> xstmt -> nat -> nat -> NetModel.N (list nat)) (tn : name) (pre : list nat)
            (ctx : nat) (n last : nat)
   : nat -> list xstmt -> nat -> list nat -> NetModel.N (list nat) :=
   fix go (i : nat) (l : list xstmt) (prev : nat) (acc : list nat) : NetModel.N (list nat) :=
@@ -18,17 +18,17 @@ Definition pg_block_go (pg : sinfo -> nat -> xstmt -> nat -> nat -> NetModel.N (
       cur <~ (if Nat.ltb 1 n
               then (if Nat.ltb i (n - 1) then create_transition else nret last)
               else nret last) ;;
-      ex <~ pg (mksi tn pre i) ctx s prev cur ;;
+      ex <~ pg (mksi tn pre i il) ctx s prev cur ;;
       go (S i) r cur ex
     end.
 
-Definition pg_calls (pg : sinfo -> nat -> xstmt -> nat -> nat -> NetModel.N (list nat)) (tn : name) (pre : list nat)
+Definition pg_calls (il : bool) (pg : sinfo -> nat -> xstmt -> nat -> nat -> NetModel.N (list nat)) (tn : name) (pre : list nat)
            (ctx t1 sync : nat)
   : nat -> list xstmt -> NetModel.N unit :=
   fix calls (i : nat) (l : list xstmt) : NetModel.N unit :=
     match l with
     | [] => nret tt
-    | b :: r => pg (mksi tn pre i) ctx b t1 sync ;;~ calls (S i) r
+    | b :: r => pg (mksi tn pre i il) ctx b t1 sync ;;~ calls (S i) r
     end.
 
 Fixpoint pg_stmt (il : bool) (k : sinfo) (ctx : nat) (s : xstmt) (t1 t2 : nat) {struct s} : NetModel.N (list nat) :=
@@ -39,13 +39,13 @@ Fixpoint pg_stmt (il : bool) (k : sinfo) (ctx : nat) (s : xstmt) (t1 t2 : nat) {
     a <~ new_api {| a_is_task := true; a_name := t; a_site := at_; a_uuid := u; a_ctx := Some ctx;
                     a_in_loop := il; a_params := ins; a_src := ins; a_has_call := true |} ;;
     add_callback t1 (CbTS a) ;;~
-    ex <~ pg_block_go (pg_stmt il) t [] a (List.length body) t2 0 body t1 [] ;;
+    ex <~ pg_block_go il (pg_stmt il) t [] a (List.length body) t2 0 body t1 [] ;;
     nfor ex (fun e => add_callback e (CbTF a)) ;;~
     nret ex
   | XParallel bs =>
     sync <~ create_transition ;;
     pfin <~ create_place ;;
-    pg_calls (pg_stmt il) (s_tn k) (s_path k) ctx t1 sync 0 bs ;;~
+    pg_calls il (pg_stmt il) (s_tn k) (s_path k) ctx t1 sync 0 bs ;;~
     add_output pfin sync ;;~
     add_input pfin t2 ;;~
     nret [sync]
@@ -62,7 +62,7 @@ Fixpoint pg_stmt (il : bool) (k : sinfo) (ctx : nat) (s : xstmt) (t1 t2 : nat) {
     cfin <~ create_place ;;
     sp <~ create_transition ;;
     add_output cfin sp ;;~
-    pg_block_go (pg_stmt il) (s_tn k) (s_path k ++ [0]) ctx (List.length P) sp 0 P fp [] ;;~
+    pg_block_go il (pg_stmt il) (s_tn k) (s_path k ++ [0]) ctx (List.length P) sp 0 P fp [] ;;~
     add_output expr_p t1 ;;~
     add_input cfin t2 ;;~
     add_callback t1 (CbCond e passed failed ctx) ;;~
@@ -70,7 +70,7 @@ Fixpoint pg_stmt (il : bool) (k : sinfo) (ctx : nat) (s : xstmt) (t1 t2 : nat) {
     | [] => add_output cfin ff ;;~ nret [sp; ff]
     | _ :: _ =>
       sf <~ create_transition ;;
-      pg_block_go (pg_stmt il) (s_tn k) (s_path k ++ [1]) ctx (List.length F) sf 0 F ff [] ;;~
+      pg_block_go il (pg_stmt il) (s_tn k) (s_path k ++ [1]) ctx (List.length F) sf 0 F ff [] ;;~
       add_output cfin sf ;;~
       nret [sp; sf]
     end
@@ -87,7 +87,7 @@ Fixpoint pg_stmt (il : bool) (k : sinfo) (ctx : nat) (s : xstmt) (t1 t2 : nat) {
     add_input else_p cf ;;~
     add_output loop_p it ;;~
     ldone <~ create_place ;;
-    pg_block_go (pg_stmt true) (s_tn k) (s_path k) ctx (List.length B) it 0 B cp [] ;;~
+    pg_block_go true (pg_stmt true) (s_tn k) (s_path k) ctx (List.length B) it 0 B cp [] ;;~
     add_output loop_p t1 ;;~
     add_input ldone t2 ;;~
     add_callback t1 (CbWhile e then_p else_p ctx) ;;~
@@ -107,7 +107,7 @@ Fixpoint pg_stmt (il : bool) (k : sinfo) (ctx : nat) (s : xstmt) (t1 t2 : nat) {
     add_input else_p cf ;;~
     add_output loop_p it ;;~
     ldone <~ create_place ;;
-    pg_block_go (pg_stmt true) (s_tn k) (s_path k) ctx (List.length B) it 0 B cp [] ;;~
+    pg_block_go true (pg_stmt true) (s_tn k) (s_path k) ctx (List.length B) it 0 B cp [] ;;~
     add_output ldone cf ;;~
     add_output loop_p t1 ;;~
     add_input ldone t2 ;;~
@@ -119,7 +119,7 @@ Fixpoint pg_stmt (il : bool) (k : sinfo) (ctx : nat) (s : xstmt) (t1 t2 : nat) {
 
 Definition pg_block (il : bool) (tn : name) (pre : list nat) (ctx : nat) (body : list xstmt) (first last : nat)
   : NetModel.N (list nat) :=
-  pg_block_go (pg_stmt il) tn pre ctx (List.length body) last 0 body first [].
+  pg_block_go il (pg_stmt il) tn pre ctx (List.length body) last 0 body first [].
 
 (* ---- the primitive operations as state transformers ---- *)
 Definition op_place (s : NS) : NS := s <| ns_places := ns_places s ++ [Some 0] |>.
@@ -317,11 +317,11 @@ Ltac gstep :=
 
 Definition pos_of (k : sinfo) (s : NS) : pos :=
   mkpos (List.length (ns_places s)) (List.length (ns_trans s)) (List.length (ns_apis s)) k.
-Definition si_add (n : nat) (k : sinfo) : sinfo := mksi (s_tn k) (s_pre k) (s_idx k + n).
+Definition si_add (n : nat) (k : sinfo) : sinfo := mksi (s_tn k) (s_pre k) (s_idx k + n) (s_il k).
 Lemma pos_ext : forall p q, pp p = pp q -> pt p = pt q -> pa p = pa q -> psi p = psi q -> p = q.
 Proof. intros [] [] H1 H2 H3 H4. cbn in *. subst. reflexivity. Qed.
-Lemma si_ext : forall a b, s_tn a = s_tn b -> s_pre a = s_pre b -> s_idx a = s_idx b -> a = b.
-Proof. intros [] [] H1 H2 H3. cbn in *. subst. reflexivity. Qed.
+Lemma si_ext : forall a b, s_tn a = s_tn b -> s_pre a = s_pre b -> s_idx a = s_idx b -> s_il a = s_il b -> a = b.
+Proof. intros [] [] H1 H2 H3 H4. cbn in *. subst. reflexivity. Qed.
 
 Lemma generate_service_eq : forall il k n ins at_ ctx t1 t2 s,
     let p := pos_of k s in
@@ -375,7 +375,10 @@ Ltac eqb_cases :=
          | |- context [Nat.ltb ?a ?b] => destruct (Nat.ltb_spec a b); try lia
          end.
 
-Lemma gen_service : forall il k n ins at_ ctx t1 t2 s,
+Section WithLV.
+Context `{LV : LoopVars}.
+
+Lemma gen_service : forall il k n ins at_ ctx t1 t2 s, s_il k = il ->
     okns s -> t1 < List.length (ns_trans s) -> t2 < List.length (ns_trans s) ->
     let p := pos_of k s in
     exists s', generate_service n ins at_ ctx t1 t2 il s = Ok (exits (XService n at_ ins) p, s') /\
@@ -383,7 +386,7 @@ Lemma gen_service : forall il k n ins at_ ctx t1 t2 s,
                pos_of (si_next k) s' = adv (XService n at_ ins) p /\ okns s' /\
                wired s' (XService n at_ ins) p ctx [].
 Proof.
-  intros il k n ins at_ ctx t1 t2 s [Hcb Hfr] H1 H2 p. rewrite (generate_service_eq il k). fold p.
+  intros il k n ins at_ ctx t1 t2 s Hil [Hcb Hfr] H1 H2 p. rewrite (generate_service_eq il k). fold p.
   eexists. split; [reflexivity|].
   assert (Hp : pt p = List.length (ns_trans s)) by reflexivity.
   assert (Hpp : pp p = List.length (ns_places s)) by reflexivity.
@@ -410,7 +413,7 @@ Proof.
     + eqb_cases; cbn [andb app]; reflexivity.
     + eqb_cases; cbn [andb app]; reflexivity.
     + eqb_cases; cbn [andb app]; reflexivity.
-    + exists il. rewrite Hpa, nth_error_app2, Nat.sub_diag by lia. rewrite <- Hfr. reflexivity.
+    + change (psi p) with k. rewrite Hil. rewrite Hpa, nth_error_app2, Nat.sub_diag by lia. rewrite <- Hfr. reflexivity.
     + rewrite Hpa, <- Hfr. cbn [dict_get ident_eqb]. rewrite Nat.eqb_refl. reflexivity.
 Qed.
 
@@ -547,10 +550,11 @@ Qed.
 
 (* ---- the statement proved by induction over the unfolded tree ---- *)
 Definition GenOK (s : xstmt) : Prop :=
-  frag s = true -> forall il k ctx t1 t2 ns,
+  frag s = true -> forall k ctx t1 t2 ns,
+    keys_ok s (s_tn k) (s_pre k) (s_idx k) ->
     okns ns -> t1 < List.length (ns_trans ns) -> t2 < List.length (ns_trans ns) ->
     let p := pos_of k ns in
-    exists ns', pg_stmt il k ctx s t1 t2 ns = Ok (exits s p, ns') /\
+    exists ns', pg_stmt (s_il k) k ctx s t1 t2 ns = Ok (exits s p, ns') /\
                 Gen ns ns' t1 t2 (entries s p) (startcbs s p ctx) [xplace s p] /\
                 pos_of (si_next k) ns' = adv s p /\ okns ns' /\ wired ns' s p ctx [].
 
@@ -577,22 +581,25 @@ Proof. intros n [a b c]. unfold si_add, si_next. cbn. f_equal. lia. Qed.
 
 Lemma gen_calls : forall l, Forall GenOK l -> frag_brs l = true ->
     forall il tn pre i ctx t1 sync ns,
+      keys_block tn pre l i ->
       okns ns -> t1 < List.length (ns_trans ns) -> sync < List.length (ns_trans ns) ->
-      let q := pos_of (mksi tn pre i) ns in
-      exists ns', pg_calls (pg_stmt il) tn pre ctx t1 sync i l ns = Ok (tt, ns') /\
+      let q := pos_of (mksi tn pre i il) ns in
+      exists ns', pg_calls il (pg_stmt il) tn pre ctx t1 sync i l ns = Ok (tt, ns') /\
                   Gen ns ns' t1 sync (cat_of entries l q) (cat_of (fun b q => startcbs b q ctx) l q) (cat_of (fun b q => [xplace b q]) l q) /\
-                  pos_of (mksi tn pre (i + List.length l)) ns' = adv_l l q /\ okns ns' /\ wired_list (wired ns') ctx l q.
+                  pos_of (mksi tn pre (i + List.length l) il) ns' = adv_l l q /\ okns ns' /\ wired_list (wired ns') ctx l q.
 Proof.
-  induction l as [|b r IH]; intros HF Hf il tn pre i ctx t1 sync ns Hok H1 H2 q.
+  induction l as [|b r IH]; intros HF Hf il tn pre i ctx t1 sync ns Hkeys Hok H1 H2 q.
   - exists ns. split; [reflexivity|]. split; [|split; [|split; [exact Hok|exact I]]].
     + unfold Gen. eapply GenF_ext; [apply GenF_refl|]. intros j _. cbn [cat_of]. unfold fnil.
       destruct (Nat.eqb j sync), (Nat.eqb j t1); auto.
     + unfold adv_l, nplaces_l, ntrans_l, napis_l, q, pos_of, si_add. cbn [map list_sum fold_right List.length pp pt pa psi s_tn s_pre s_idx]. rewrite !Nat.add_0_r. reflexivity.
   - inversion HF as [|? ? Hb Hr]; subst. apply frag_brs_cons in Hf. destruct Hf as (_ & Hfb & Hfr).
-    destruct (Hb Hfb il (mksi tn pre i) ctx t1 sync ns Hok H1 H2) as (ns1 & E1 & G1 & P1 & Ok1 & W1). fold q in E1, G1, P1, W1.
-    change (si_next (mksi tn pre i)) with (mksi tn pre (S i)) in P1.
+    cbn [keys_block] in Hkeys. destruct Hkeys as [Hkb Hkr].
+    destruct (Hb Hfb (mksi tn pre i il) ctx t1 sync ns Hkb Hok H1 H2) as (ns1 & E1 & G1 & P1 & Ok1 & W1). fold q in E1, G1, P1, W1.
+    cbn [s_il] in E1.
+    change (si_next (mksi tn pre i il)) with (mksi tn pre (S i) il) in P1.
     assert (L1 : List.length (ns_trans ns) <= List.length (ns_trans ns1)) by (apply (gn_ntr _ _ _ _ _ G1)).
-    destruct (IH Hr Hfr il tn pre (S i) ctx t1 sync ns1 Ok1 ltac:(lia) ltac:(lia)) as (ns2 & E2 & G2 & P2 & Ok2 & W2).
+    destruct (IH Hr Hfr il tn pre (S i) ctx t1 sync ns1 Hkr Ok1 ltac:(lia) ltac:(lia)) as (ns2 & E2 & G2 & P2 & Ok2 & W2).
     rewrite ?P1 in G2, P2, W2.
     exists ns2. split; [|split; [|split; [|split; [exact Ok2|]]]].
     + cbn [pg_calls]. unfold nbind. rewrite E1. exact E2.
@@ -619,14 +626,16 @@ Proof. intros k s. unfold pos_of, conn_skip. autorewrite with netops. reflexivit
 
 Lemma gen_block_go : forall l, Forall GenOK l -> frag_block l = true ->
     forall il tn pre n i prev acc ctx last ns,
+      keys_block tn pre l i ->
       i + List.length l = n -> okns ns ->
       prev < List.length (ns_trans ns) -> last < List.length (ns_trans ns) ->
-      let p := pos_of (mksi tn pre i) ns in
-      exists ns', pg_block_go (pg_stmt il) tn pre ctx n last i l prev acc ns = Ok (exits_b l p, ns') /\
+      let p := pos_of (mksi tn pre i il) ns in
+      exists ns', pg_block_go il (pg_stmt il) tn pre ctx n last i l prev acc ns = Ok (exits_b l p, ns') /\
                   Gen ns ns' prev last (entries_b l p) (startcbs_b l p ctx) [xplace_b l p] /\
-                  pos_of (mksi tn pre (i + List.length l)) ns' = adv_b l p /\ okns ns' /\ wired_block (wired ns') ns' ctx [] l p.
+                  pos_of (mksi tn pre (i + List.length l) il) ns' = adv_b l p /\ okns ns' /\ wired_block (wired ns') ns' ctx [] l p.
 Proof.
-  induction l as [|s r IH]; intros HF Hf il tn pre n i prev acc ctx last ns Hn Hok H1 H2 p; [discriminate|].
+  induction l as [|s r IH]; intros HF Hf il tn pre n i prev acc ctx last ns Hkeys Hn Hok H1 H2 p; [discriminate|].
+  cbn [keys_block] in Hkeys. destruct Hkeys as [Hks Hkr].
   inversion HF as [|? ? Hs Hr]; subst. apply frag_block_cons in Hf. destruct Hf as [Hfs Hfr].
   destruct r as [|s' r].
   - (* last statement: wired to [last] *)
@@ -635,8 +644,9 @@ Proof.
                    = nret last).
     { replace (i + 1 - 1) with i by lia. rewrite Nat.ltb_irrefl. destruct (Nat.ltb 1 (i + 1)); reflexivity. }
     rewrite Ecur. unfold nbind at 1. unfold nret at 1.
-    destruct (Hs Hfs il (mksi tn pre i) ctx prev last ns Hok H1 H2) as (ns1 & E1 & G1 & P1 & Ok1 & W1). fold p in E1, G1, P1, W1.
-    change (si_next (mksi tn pre i)) with (mksi tn pre (S i)) in P1.
+    destruct (Hs Hfs (mksi tn pre i il) ctx prev last ns Hks Hok H1 H2) as (ns1 & E1 & G1 & P1 & Ok1 & W1). fold p in E1, G1, P1, W1.
+    cbn [s_il] in E1.
+    change (si_next (mksi tn pre i il)) with (mksi tn pre (S i) il) in P1.
     exists ns1. split; [|split; [|split; [|split; [exact Ok1|]]]].
     + unfold nbind. rewrite E1. reflexivity.
     + exact G1.
@@ -654,12 +664,13 @@ Proof.
     assert (Hc0 : cur = List.length (ns_trans ns)) by reflexivity.
     pose proof (okns_op_trans ns Hok) as Ok0.
     assert (L0 : List.length (ns_trans (op_trans ns)) = S cur) by (autorewrite with netops; reflexivity).
-    destruct (Hs Hfs il (mksi tn pre i) ctx prev cur (op_trans ns) Ok0 ltac:(lia) ltac:(lia)) as (ns1 & E1 & G1 & P1 & Ok1 & W1).
-    change (si_next (mksi tn pre i)) with (mksi tn pre (S i)) in P1.
+    destruct (Hs Hfs (mksi tn pre i il) ctx prev cur (op_trans ns) Hks Ok0 ltac:(lia) ltac:(lia)) as (ns1 & E1 & G1 & P1 & Ok1 & W1).
+    cbn [s_il] in E1.
+    change (si_next (mksi tn pre i il)) with (mksi tn pre (S i) il) in P1.
     rewrite pos_op_trans in E1, G1, P1, W1. fold p in E1, G1, P1, W1.
     set (ps := conn_skip p) in *.
     assert (L1 : S cur <= List.length (ns_trans ns1)) by (rewrite <- L0; apply (gn_ntr _ _ _ _ _ G1)).
-    destruct (IH Hr Hfr il tn pre (i + S (S (List.length r))) (S i) cur (exits s ps) ctx last ns1 ltac:(cbn [List.length]; lia) Ok1 ltac:(lia) ltac:(lia))
+    destruct (IH Hr Hfr il tn pre (i + S (S (List.length r))) (S i) cur (exits s ps) ctx last ns1 Hkr ltac:(cbn [List.length]; lia) Ok1 ltac:(lia) ltac:(lia))
       as (ns2 & E2 & G2 & P2 & Ok2 & W2).
     rewrite ?P1 in E2, G2, P2, W2. set (pr := adv s ps) in *.
     exists ns2. split; [|split; [|split; [|split; [exact Ok2|]]]].
@@ -810,7 +821,7 @@ Qed.
 
 Lemma gen_call : forall t at_ ins body, Forall GenOK body -> GenOK (XCall t at_ ins body).
 Proof.
-  intros t at_ ins body HF Hf il k ctx t1 t2 ns Hok H1 H2 p.
+  intros t at_ ins body HF Hf k ctx t1 t2 ns Hkeys Hok H1 H2 p. set (il := s_il k).
   apply frag_call in Hf. destruct Hf as [_ Hfb].
   destruct Hok as [Hcb Hfr].
   cbn [pg_stmt]. rewrite nbind_fresh, nbind_new_api.
@@ -821,12 +832,13 @@ Proof.
   set (ns1 := op_cb t1 (CbTS a) (op_api A ns)).
   assert (Ok1 : okns ns1).
   { unfold ns1. split; autorewrite with netops; [exact Hcb|]. rewrite app_length. cbn [List.length]. lia. }
-  assert (P1 : pos_of (si_task t) ns1 = body_pos t p).
+  assert (P1 : pos_of (si_task t il) ns1 = body_pos t p).
   { unfold ns1, pos_of, body_pos, p, pos_of. autorewrite with netops. rewrite app_length. cbn [List.length pp pt pa]. f_equal. lia. }
   assert (Lt1 : List.length (ns_trans ns1) = List.length (ns_trans ns)) by (unfold ns1; autorewrite with netops; reflexivity).
-  destruct (gen_block_go body HF Hfb il t [] (List.length body) 0 t1 [] a t2 ns1 eq_refl Ok1 ltac:(lia) ltac:(lia))
+  rewrite keys_ok_call in Hkeys.
+  destruct (gen_block_go body HF Hfb il t [] (List.length body) 0 t1 [] a t2 ns1 Hkeys eq_refl Ok1 ltac:(lia) ltac:(lia))
     as (ns2 & E2 & G2 & P2 & Ok2 & W2).
-  change (mksi t [] 0) with (si_task t) in E2, G2, P2, W2.
+  change (mksi t [] 0 il) with (si_task t il) in E2, G2, P2, W2.
   rewrite P1 in E2, G2, P2, W2. set (bp := body_pos t p) in *.
   pose proof (exits_range_b body Hfb bp) as [_ Hex].
   assert (Lt2 : List.length (ns_trans ns2) = pt bp + ntrans_b body).
@@ -855,7 +867,7 @@ Proof.
   - destruct (op_cbs_facts es (CbTF a) ns2 Hnd Hlt) as (_ & A' & _ & _ & T' & C' & F' & _).
     destruct Ok2 as [Hcb2 Hfr2]. split; [rewrite C', T'; exact Hcb2|rewrite F', A'; exact Hfr2].
   - cbn [wired]. split.
-    + exists il. destruct (op_cbs_facts es (CbTF a) ns2 Hnd Hlt) as (_ & A' & _). rewrite A'.
+    + change (s_il (psi p)) with il. destruct (op_cbs_facts es (CbTF a) ns2 Hnd Hlt) as (_ & A' & _). rewrite A'.
       rewrite (gn_apis _ _ _ _ _ G2) by (unfold ns1; autorewrite with netops; rewrite app_length; cbn [List.length]; unfold p, pos_of; cbn [pa]; lia).
       unfold ns1. autorewrite with netops. unfold p, pos_of. cbn [pa].
       rewrite nth_error_app2, Nat.sub_diag by lia. unfold A. rewrite Hfr. reflexivity.
@@ -866,7 +878,7 @@ Qed.
 
 Lemma gen_par : forall bs, Forall GenOK bs -> GenOK (XParallel bs).
 Proof.
-  intros bs HF Hf il k ctx t1 t2 ns Hok H1 H2 p.
+  intros bs HF Hf k ctx t1 t2 ns Hkeys Hok H1 H2 p. set (il := s_il k).
   apply frag_par in Hf. destruct Hf as [_ Hfb].
   cbn [pg_stmt]. rewrite (nbind_ok _ _ _ _ _ _ _ (create_transition_eq _)).
   rewrite (nbind_ok _ _ _ _ _ _ _ (create_place_eq _)).
@@ -880,8 +892,9 @@ Proof.
   assert (P1 : pos_of (si_sub k) ns1 = par_pos p).
   { unfold ns1, pos_of, par_pos, p, pos_of. autorewrite with netops. rewrite app_length. cbn [List.length pp pt pa psi]. f_equal. lia. }
   assert (Lt1 : List.length (ns_trans ns1) = S sync) by (unfold ns1; autorewrite with netops; reflexivity).
-  destruct (gen_calls bs HF Hfb il (s_tn k) (s_path k) 0 ctx t1 sync ns1 Ok1 ltac:(lia) ltac:(lia)) as (ns2 & E2 & G2 & P2 & Ok2 & W2).
-  change (mksi (s_tn k) (s_path k) 0) with (si_sub k) in E2, G2, P2, W2.
+  rewrite keys_ok_par in Hkeys. change (s_pre k ++ [s_idx k]) with (s_path k) in Hkeys.
+  destruct (gen_calls bs HF Hfb il (s_tn k) (s_path k) 0 ctx t1 sync ns1 Hkeys Ok1 ltac:(lia) ltac:(lia)) as (ns2 & E2 & G2 & P2 & Ok2 & W2).
+  change (mksi (s_tn k) (s_path k) 0 il) with (si_sub k) in E2, G2, P2, W2.
   rewrite P1 in G2, P2, W2. set (q := par_pos p) in *.
   assert (Lt2 : List.length (ns_trans ns2) = pt q + ntrans_l bs).
   { pose proof (f_equal pt P2) as E. unfold pos_of, adv_l in E. cbn [pt] in E. exact E. }
@@ -930,7 +943,7 @@ Qed.
 
 Lemma gen_cond0 : forall e P, Forall GenOK P -> GenOK (XCond e P []).
 Proof.
-  intros e P HFP Hf il k ctx t1 t2 ns Hok H1 H2 p.
+  intros e P HFP Hf k ctx t1 t2 ns Hkeys Hok H1 H2 p. set (il := s_il k).
   apply frag_cond0 in Hf. rename Hf into HfP.
   pose proof Hok as [Hcb Hfr].
   cbn [pg_stmt].
@@ -951,9 +964,10 @@ Proof.
   assert (OkA : okns nsA).
   { unfold nsA. split; autorewrite with netops; [lia|exact Hfr]. }
   assert (LtA : List.length (ns_trans nsA) = pt0 + 3) by (pose proof (f_equal pt PA) as E; cbn [pos_of cond_p pt] in E; fold pt0 in E; exact E).
-  destruct (gen_block_go P HFP HfP il (s_tn k) (s_path k ++ [0]) (List.length P) 0 pt0 [] ctx (S (S pt0)) nsA eq_refl OkA ltac:(lia) ltac:(lia))
+  rewrite keys_ok_cond in Hkeys. change (s_pre k ++ [s_idx k]) with (s_path k) in Hkeys.
+  destruct (gen_block_go P HFP HfP il (s_tn k) (s_path k ++ [0]) (List.length P) 0 pt0 [] ctx (S (S pt0)) nsA (proj1 Hkeys) eq_refl OkA ltac:(lia) ltac:(lia))
     as (nsB & EB & GB & PB & OkB & WB).
-  change (mksi (s_tn k) (s_path k ++ [0]) 0) with (si_sub2 0 k) in EB, GB, PB, WB.
+  change (mksi (s_tn k) (s_path k ++ [0]) 0 il) with (si_sub2 0 k) in EB, GB, PB, WB.
   rewrite PA in EB, GB, PB, WB. set (cp := cond_p p) in *.
   unfold nbind at 1. rewrite EB.
   rewrite (nbind_ok _ _ _ _ _ _ _ (add_output_eq _ _ _)).
@@ -1092,7 +1106,7 @@ Qed.
 Lemma gen_cond : forall e P F, Forall GenOK P -> Forall GenOK F -> GenOK (XCond e P F).
 Proof.
   intros e P F HFP HFF. destruct F as [|f0 fr]; [apply gen_cond0; exact HFP|].
-  intros Hf il k ctx t1 t2 ns Hok H1 H2 p.
+  intros Hf k ctx t1 t2 ns Hkeys Hok H1 H2 p. set (il := s_il k).
   apply frag_cond in Hf. destruct Hf as [HfP HfF].
   pose proof Hok as [Hcb Hfr].
   cbn [pg_stmt].
@@ -1113,9 +1127,10 @@ Proof.
   assert (OkA : okns nsA).
   { unfold nsA. split; autorewrite with netops; [lia|exact Hfr]. }
   assert (LtA : List.length (ns_trans nsA) = pt0 + 3) by (pose proof (f_equal pt PA) as E; cbn [pos_of cond_p pt] in E; fold pt0 in E; exact E).
-  destruct (gen_block_go P HFP HfP il (s_tn k) (s_path k ++ [0]) (List.length P) 0 pt0 [] ctx (S (S pt0)) nsA eq_refl OkA ltac:(lia) ltac:(lia))
+  rewrite keys_ok_cond in Hkeys. change (s_pre k ++ [s_idx k]) with (s_path k) in Hkeys.
+  destruct (gen_block_go P HFP HfP il (s_tn k) (s_path k ++ [0]) (List.length P) 0 pt0 [] ctx (S (S pt0)) nsA (proj1 Hkeys) eq_refl OkA ltac:(lia) ltac:(lia))
     as (nsB & EB & GB & PB & OkB & WB).
-  change (mksi (s_tn k) (s_path k ++ [0]) 0) with (si_sub2 0 k) in EB, GB, PB, WB.
+  change (mksi (s_tn k) (s_path k ++ [0]) 0 il) with (si_sub2 0 k) in EB, GB, PB, WB.
   rewrite PA in EB, GB, PB, WB. set (cp := cond_p p) in *.
   unfold nbind at 1. rewrite EB.
   rewrite (nbind_ok _ _ _ _ _ _ _ (add_output_eq _ _ _)).
@@ -1135,9 +1150,9 @@ Proof.
   assert (OkD : okns nsD).
   { destruct OkB as [B1 B2]. unfold nsD, nsC. split; autorewrite with netops; [lia|exact B2]. }
   assert (LtD : List.length (ns_trans nsD) = S sf) by (unfold nsD; autorewrite with netops; rewrite LtC; reflexivity).
-  destruct (gen_block_go (f0 :: fr) HFF HfF il (s_tn k) (s_path k ++ [1]) (List.length (f0 :: fr)) 0 (S pt0) [] ctx sf nsD eq_refl OkD ltac:(lia) ltac:(lia))
+  destruct (gen_block_go (f0 :: fr) HFF HfF il (s_tn k) (s_path k ++ [1]) (List.length (f0 :: fr)) 0 (S pt0) [] ctx sf nsD (proj2 Hkeys) eq_refl OkD ltac:(lia) ltac:(lia))
     as (nsE & EE & GE & PE & OkE & WE).
-  change (mksi (s_tn k) (s_path k ++ [1]) 0) with (si_sub2 1 k) in EE, GE, PE, WE.
+  change (mksi (s_tn k) (s_path k ++ [1]) 0 il) with (si_sub2 1 k) in EE, GE, PE, WE.
   rewrite PD in EE, GE, PE, WE. set (cf := cond_f P p) in *.
   change (S (List.length fr)) with (List.length (f0 :: fr)).
   unfold nbind at 1. rewrite EE.
@@ -1313,7 +1328,7 @@ Qed.
 
 Lemma gen_while : forall e B, Forall GenOK B -> GenOK (XWhile e B).
 Proof.
-  intros e B HFB Hf il k ctx t1 t2 ns Hok H1 H2 p.
+  intros e B HFB Hf k ctx t1 t2 ns Hkeys Hok H1 H2 p. set (il := s_il k).
   apply frag_while in Hf. rename Hf into HfB.
   pose proof Hok as [Hcb Hfr].
   cbn [pg_stmt].
@@ -1328,15 +1343,16 @@ Proof.
   replace (S (S pp0) + 1) with (S (S (S pp0))) by lia.
   replace (pt0 + 1) with (S pt0) by lia. replace (S pt0 + 1) with (S (S pt0)) by lia.
   set (nsA := op_place _).
-  assert (PA : pos_of (si_sub k) nsA = loop_p p).
+  assert (PA : pos_of (si_loop k) nsA = loop_p p).
   { unfold nsA, pos_of, loop_p, p, pos_of. autorewrite with netops. rewrite !app_length. cbn [List.length pp pt pa psi].
     fold pp0 pt0 pa0. f_equal; lia. }
   assert (OkA : okns nsA).
   { unfold nsA. split; autorewrite with netops; [lia|exact Hfr]. }
   assert (LtA : List.length (ns_trans nsA) = pt0 + 3) by (pose proof (f_equal pt PA) as E; cbn [pos_of loop_p pt] in E; fold pt0 in E; exact E).
-  destruct (gen_block_go B HFB HfB true (s_tn k) (s_path k) (List.length B) 0 pt0 [] ctx (S (S pt0)) nsA eq_refl OkA ltac:(lia) ltac:(lia))
+  rewrite keys_ok_while in Hkeys. change (s_pre k ++ [s_idx k]) with (s_path k) in Hkeys.
+  destruct (gen_block_go B HFB HfB true (s_tn k) (s_path k) (List.length B) 0 pt0 [] ctx (S (S pt0)) nsA Hkeys eq_refl OkA ltac:(lia) ltac:(lia))
     as (nsB & EB & GB & PB & OkB & WB).
-  change (mksi (s_tn k) (s_path k) 0) with (si_sub k) in EB, GB, PB, WB.
+  change (mksi (s_tn k) (s_path k) 0 true) with (si_loop k) in EB, GB, PB, WB.
   rewrite PA in EB, GB, PB, WB. set (cp := loop_p p) in *.
   unfold nbind at 1. rewrite EB.
   rewrite (nbind_ok _ _ _ _ _ _ _ (add_output_eq _ _ _)).
@@ -1480,7 +1496,7 @@ Qed.
 
 Lemma gen_count : forall v lim B, Forall GenOK B -> GenOK (XCount v lim B).
 Proof.
-  intros v lim B HFB Hf il k ctx t1 t2 ns Hok H1 H2 p.
+  intros v lim B HFB Hf k ctx t1 t2 ns Hkeys Hok H1 H2 p. set (il := s_il k).
   apply frag_count in Hf. rename Hf into HfB.
   pose proof Hok as [Hcb Hfr].
   cbn [pg_stmt].
@@ -1495,15 +1511,16 @@ Proof.
   replace (S (S pp0) + 1) with (S (S (S pp0))) by lia.
   replace (pt0 + 1) with (S pt0) by lia. replace (S pt0 + 1) with (S (S pt0)) by lia.
   set (nsA := op_place _).
-  assert (PA : pos_of (si_sub k) nsA = loop_p p).
+  assert (PA : pos_of (si_loop k) nsA = loop_p p).
   { unfold nsA, pos_of, loop_p, p, pos_of. autorewrite with netops. rewrite !app_length. cbn [List.length pp pt pa psi].
     fold pp0 pt0 pa0. f_equal; lia. }
   assert (OkA : okns nsA).
   { unfold nsA. split; autorewrite with netops; [lia|exact Hfr]. }
   assert (LtA : List.length (ns_trans nsA) = pt0 + 3) by (pose proof (f_equal pt PA) as E; cbn [pos_of loop_p pt] in E; fold pt0 in E; exact E).
-  destruct (gen_block_go B HFB HfB true (s_tn k) (s_path k) (List.length B) 0 pt0 [] ctx (S (S pt0)) nsA eq_refl OkA ltac:(lia) ltac:(lia))
+  rewrite keys_ok_count in Hkeys. change (s_pre k ++ [s_idx k]) with (s_path k) in Hkeys.
+  destruct (gen_block_go B HFB HfB true (s_tn k) (s_path k) (List.length B) 0 pt0 [] ctx (S (S pt0)) nsA (proj2 Hkeys) eq_refl OkA ltac:(lia) ltac:(lia))
     as (nsB & EB & GB & PB & OkB & WB).
-  change (mksi (s_tn k) (s_path k) 0) with (si_sub k) in EB, GB, PB, WB.
+  change (mksi (s_tn k) (s_path k) 0 true) with (si_loop k) in EB, GB, PB, WB.
   rewrite PA in EB, GB, PB, WB. set (cp := loop_p p) in *.
   unfold nbind at 1. rewrite EB.
   rewrite (nbind_ok _ _ _ _ _ _ _ (add_output_eq _ _ _)).
@@ -1622,6 +1639,7 @@ Proof.
     cbn [andb app].
     rewrite ?(proj2 (Nat.ltb_lt _ _)) by lia. cbn [app]. rewrite ?app_nil_r.
     repeat (split; [reflexivity|]).
+    split; [split; [reflexivity|exact (proj1 Hkeys)]|].
     (* the body survives what follows *)
     apply (wired_block_ext nsB nsF B HfB cp ctx []); [|exact WB].
     assert (G : GenF nsB nsF (fun j => if Nat.eqb j t2 then [S (S (S pp0))] else [])
@@ -1649,7 +1667,7 @@ Theorem gen_ok : forall s, GenOK s.
 Proof.
   induction s as [n a i|t a i body IH|bs IH|e p f IHp IHf|e b IH|v l b IH|v l c IH] using xstmt_ind';
     try (intro Hf; discriminate Hf).
-  - intros Hf il k ctx t1 t2 ns Hok H1 H2 p. cbn [pg_stmt]. apply gen_service; assumption.
+  - intros Hf k ctx t1 t2 ns Hkeys Hok H1 H2 p. cbn [pg_stmt]. apply gen_service; [reflexivity|assumption..].
   - apply gen_call. exact IH.
   - apply gen_par. exact IH.
   - apply gen_cond; assumption.
@@ -1659,13 +1677,14 @@ Qed.
 
 Theorem gen_block : forall body, frag_block body = true ->
     forall il tn pre ctx first last ns,
+      keys_block tn pre body 0 ->
       okns ns -> first < List.length (ns_trans ns) -> last < List.length (ns_trans ns) ->
-      let p := pos_of (mksi tn pre 0) ns in
+      let p := pos_of (mksi tn pre 0 il) ns in
       exists ns', pg_block il tn pre ctx body first last ns = Ok (exits_b body p, ns') /\
                   Gen ns ns' first last (entries_b body p) (startcbs_b body p ctx) [xplace_b body p] /\
-                  pos_of (mksi tn pre (List.length body)) ns' = adv_b body p /\ okns ns' /\ wired_block (wired ns') ns' ctx [] body p.
+                  pos_of (mksi tn pre (List.length body) il) ns' = adv_b body p /\ okns ns' /\ wired_block (wired ns') ns' ctx [] body p.
 Proof.
-  intros body Hf il tn pre ctx first last ns Hok H1 H2 p. unfold pg_block.
+  intros body Hf il tn pre ctx first last ns Hkeys Hok H1 H2 p. unfold pg_block.
   apply (gen_block_go body) with (i := 0) (n := List.length body); try assumption; [|reflexivity].
   apply Forall_forall. intros s _. apply gen_ok.
 Qed.
@@ -1937,11 +1956,11 @@ Section WalkEq.
   Definition P_stmt (fu : nat) : Prop :=
     forall il tn pre i s x, unfold_stmt tasks fu tn (pre ++ [i]) s = Ok x -> frag x = true ->
       forall g ctx t1 t2 ns, need x <= g ->
-        generate_stmt tasks g ctx tn (pre ++ [i]) s t1 t2 il ns = pg_stmt il (mksi tn pre i) ctx x t1 t2 ns.
+        generate_stmt tasks g ctx tn (pre ++ [i]) s t1 t2 il ns = pg_stmt il (mksi tn pre i il) ctx x t1 t2 ns.
   Definition P_call (fu : nat) : Prop :=
     forall il tn pre i c x, udo_call tasks fu tn (pre ++ [i]) c = Ok x -> frag x = true ->
       forall g ctx t1 t2 ns, need x <= S g ->
-        generate_task_call tasks g c (site_of tn (pre ++ [i])) ctx t1 t2 il ns = pg_stmt il (mksi tn pre i) ctx x t1 t2 ns.
+        generate_task_call tasks g c (site_of tn (pre ++ [i])) ctx t1 t2 il ns = pg_stmt il (mksi tn pre i il) ctx x t1 t2 ns.
 
   Lemma ucall_blk_length : forall fu tn ss i xs,
       ucall_blk tasks fu tn i ss = Ok xs -> List.length xs = List.length ss.
@@ -1958,7 +1977,7 @@ Section WalkEq.
         i + List.length ss = n ->
         forall prev acc ns, (i = 0 -> prev = first) ->
           gs_go tasks g a tn [] n first last il i ss prev acc ns
-          = pg_block_go (pg_stmt il) tn [] a n last i xs prev acc ns.
+          = pg_block_go il (pg_stmt il) tn [] a n last i xs prev acc ns.
   Proof.
     intros fu HP il g a tn n first last. induction ss as [|s r IH]; intros i xs H Hf Hn Hlen prev acc ns Hprev;
       cbn [ucall_blk] in H.
@@ -1970,7 +1989,7 @@ Section WalkEq.
       { destruct (Nat.ltb_spec 1 n); [reflexivity|]. cbn [List.length] in Hlen. symmetry. apply Hprev. lia. }
       cbv zeta. rewrite Epr.
       unfold nbind. rewrite (HP il tn [] i s x Hx Hfx g a prev cur s1) by lia.
-      destruct (pg_stmt il (mksi tn [] i) a x prev cur s1) as [[ex s2]| | |]; try reflexivity.
+      destruct (pg_stmt il (mksi tn [] i il) a x prev cur s1) as [[ex s2]| | |]; try reflexivity.
       apply IH; try assumption; try lia. cbn [List.length] in Hlen. lia.
   Qed.
 
@@ -1989,7 +2008,7 @@ Section WalkEq.
         i + List.length ss = n ->
         forall prev acc ns, (i = 0 -> prev = first) ->
           gs_go tasks g a tn pre n first last il i ss prev acc ns
-          = pg_block_go (pg_stmt il) tn pre a n last i xs prev acc ns.
+          = pg_block_go il (pg_stmt il) tn pre a n last i xs prev acc ns.
   Proof.
     intros fu HP il g a tn pre n first last. induction ss as [|s r IH]; intros i xs H Hf Hn Hlen prev acc ns Hprev;
       cbn [ublock] in H.
@@ -2001,7 +2020,7 @@ Section WalkEq.
       { destruct (Nat.ltb_spec 1 n); [reflexivity|]. cbn [List.length] in Hlen. symmetry. apply Hprev. lia. }
       cbv zeta. rewrite Epr.
       unfold nbind. rewrite (HP il tn pre i s x Hx Hfx g a prev cur s1) by lia.
-      destruct (pg_stmt il (mksi tn pre i) a x prev cur s1) as [[ex s2]| | |]; try reflexivity.
+      destruct (pg_stmt il (mksi tn pre i il) a x prev cur s1) as [[ex s2]| | |]; try reflexivity.
       apply IH; try assumption; try lia. cbn [List.length] in Hlen. lia.
   Qed.
 
@@ -2028,7 +2047,7 @@ Section WalkEq.
   Lemma A_calls : forall fu, P_call fu ->
       forall il g ctx tn path t1 sync cs i xs,
         ucalls tasks fu tn path i cs = Ok xs -> frag_brs xs = true -> need_l xs <= S g ->
-        forall ns, gp_calls tasks g ctx tn path t1 sync il i cs ns = pg_calls (pg_stmt il) tn path ctx t1 sync i xs ns.
+        forall ns, gp_calls tasks g ctx tn path t1 sync il i cs ns = pg_calls il (pg_stmt il) tn path ctx t1 sync i xs ns.
   Proof.
     intros fu HP il g ctx tn path t1 sync. induction cs as [|c r IH]; intros i xs H Hf Hn ns; cbn [ucalls] in H.
     - inversion H; subst. reflexivity.
@@ -2036,7 +2055,7 @@ Section WalkEq.
       inversion H; subst xs. clear H. apply frag_brs_cons in Hf. destruct Hf as (_ & Hfx & Hfxs).
       rewrite need_l_cons in Hn. cbn [gp_calls pg_calls]. unfold nbind.
       rewrite (HP il tn path i c x Hx Hfx g ctx t1 sync ns) by lia.
-      destruct (pg_stmt il (mksi tn path i) ctx x t1 sync ns) as [[ex s2]| | |]; try reflexivity.
+      destruct (pg_stmt il (mksi tn path i il) ctx x t1 sync ns) as [[ex s2]| | |]; try reflexivity.
       apply IH; try assumption. lia.
   Qed.
 
@@ -2045,10 +2064,10 @@ Section WalkEq.
     induction fu as [|fu IH]; [intros il tn pre i s x H; discriminate H|].
     pose proof (A_call fu IH) as HC.
     intros il tn pre i s x H Hf g ctx t1 t2 ns Hg.
-    change (s_path (mksi tn pre i)) with (pre ++ [i]).
+    change (s_path (mksi tn pre i il)) with (pre ++ [i]).
     set (path := pre ++ [i]) in *.
-    assert (Ek1 : s_tn (mksi tn pre i) = tn) by reflexivity.
-    assert (Ek2 : s_path (mksi tn pre i) = path) by reflexivity.
+    assert (Ek1 : s_tn (mksi tn pre i il) = tn) by reflexivity.
+    assert (Ek2 : s_path (mksi tn pre i il) = path) by reflexivity.
     destruct (unfold_frag_shape _ _ _ _ _ _ H Hf) as [(n & ins & o & ->)|[(c & ->)|[(cs & ->)|[(e & p & fl & ->)|[(e & wb & ->)|(cv & clim & wb & ->)]]]]].
     - rewrite unfold_stmt_S_service in H. inversion H; subst x. cbn [need] in Hg.
       destruct g as [|g']; [lia|]. rewrite generate_stmt_S_service. reflexivity.
@@ -2120,7 +2139,7 @@ End WalkEq.
 (* =========================================================================== *)
 (* the whole net                                                                *)
 (* =========================================================================== *)
-Definition p0 : pos := mkpos 2 2 1 (si_task production_task).
+Definition p0 : pos := mkpos 2 2 1 (si_task production_task false).
 Definition root_api : api :=
   {| a_is_task := true; a_name := production_task; a_site := root_site; a_uuid := ITest 0; a_ctx := None;
      a_in_loop := false; a_params := []; a_src := []; a_has_call := false |}.
@@ -2181,7 +2200,7 @@ Proof.
 Qed.
 
 Lemma ns_pre_facts :
-  pos_of (si_task production_task) ns_pre = p0 /\ okns ns_pre /\
+  pos_of (si_task production_task false) ns_pre = p0 /\ okns ns_pre /\
   preN ns_pre 0 = [0] /\ postN ns_pre 0 = [] /\ cbsN ns_pre 0 = [CbTS 0] /\
   preN ns_pre 1 = [] /\ postN ns_pre 1 = [] /\ cbsN ns_pre 1 = [] /\
   nth_error (ns_apis ns_pre) 0 = Some root_api /\ ns_place_dict ns_pre = [] /\
@@ -2220,16 +2239,17 @@ Qed.
 
 Theorem net_init_spec : forall tasks fu body,
     unfold_program tasks fu = Ok body -> frag_block body = true -> need_l body < 200 ->
+    keys_block production_task [] body 0 ->
     exists N, net_init tasks true = Ok N /\ NetOf body N.
 Proof.
-  intros tasks fu body Hu Hf Hneed. rewrite unfold_program_eq in Hu.
+  intros tasks fu body Hu Hf Hneed Hkeys. rewrite unfold_program_eq in Hu.
   destruct (find_task production_task tasks) as [t|] eqn:Ft; [|discriminate Hu].
   destruct ns_pre_facts as (Ppre & Okpre & A1 & A2 & A3 & B1 & B2 & B3 & Hroot & Hdict & Hrest & Hlen).
   assert (Hfa : forallb frag body = true) by (destruct body; [discriminate Hf|exact Hf]).
   assert (Hl : 0 + List.length (t_body t) = List.length body).
   { rewrite (ucall_blk_length _ _ _ _ _ _ Hu). reflexivity. }
-  destruct (gen_block body Hf false production_task [] 0 0 1 ns_pre Okpre ltac:(lia) ltac:(lia)) as (ns2 & E2 & G2 & P2 & Ok2 & W2).
-  change (mksi production_task [] 0) with (si_task production_task) in E2, G2, P2, W2.
+  destruct (gen_block body Hf false production_task [] 0 0 1 ns_pre Hkeys Okpre ltac:(lia) ltac:(lia)) as (ns2 & E2 & G2 & P2 & Ok2 & W2).
+  change (mksi production_task [] 0 false) with (si_task production_task false) in E2, G2, P2, W2.
   rewrite Ppre in E2, G2, P2, W2.
   unfold net_init. rewrite (generate_petri_net_eq tasks 200 t Ft).
   change 200 with (S 199) at 1. rewrite generate_statements_S.
@@ -2294,3 +2314,5 @@ Proof.
     repeat match goal with |- context [?f N] => change (f N) with (f (op_cb 1 (CbTF 0) (op_out 1 1 ns2))) end.
     rewrite R3, R4, R5, R6, R7, R8, R9, R10, R11, R12, R13, R14, R15. repeat split; reflexivity.
 Qed.
+
+End WithLV.
